@@ -13,13 +13,14 @@ CFG = {
             "algebra: all 27 triples of implementations x all triples of preparation histories (member orders, spare capacity left by "
             "in-place removals) with Union/Intersection/Difference of arity 0..3 (aliased operands included), every live object re-read "
             "after each call, results and operands mutated afterwards and re-read, backing arrays checked for sharing; random: universes "
-            "4..120, pools of up to 14 objects, all operations; power: Powerset n<=7 / Partitions n<=6 on sets with and without spare "
+            "4..120, pools of up to 14 objects, all operations, plus sets of several hundred members grown and shrunk in place; power: Powerset n<=7 / Partitions n<=6 on sets with and without spare "
             "capacity; free: the same random and power generators under the real (seeded) shuffle, order-independent observables only. "
             "A case is non-trivial when it appends in place into capacity left behind by an earlier in-place removal, or calls "
             "Union/Intersection/Difference, or Powerset/Partitions with n>=2; distinct = distinct (header, op list).",
     "assumptions": ["all sets in one case share one equality and one comparator consistent with it (Go int, natural or reversed order)",
                     "range loops over s.members / All() are modelled as reading the sequence once: in this package the set that is iterated is never the set that the loop body mutates (the mutated set is always a fresh clone); the heap-layer frame theorems show the two readings coincide",
-                    "Powerset/Partitions are modelled on set values: every set they create is mutated only before it is stored in another set; the per-operation heap-to-value simulation is proved",
+                    "Powerset/Partitions are modelled on set values: every set they create is mutated only before it is stored in another set (by inspection); the per-operation heap-to-value simulation is proved (C16_no_operand_modified, C16_heap_refines_values)",
+                    "the fallback branch of the modelled equality closures set_eq/part_eq (a.Equal(b) as a total boolean) is never taken: vequal returns Ok on every pair of values (vequal_total)",
                     "Go's append growth is an arbitrary policy with grow(cap, need) >= need in the theorems and doubling in the extracted run; capacities are not compared",
                     "(low+high)/2 does not overflow (fewer than 2^62 members)"],
     "timeout": 1800,
